@@ -14,6 +14,8 @@ RULE = (
     "scale of the trended record; (ii) the trended analysis equals the direct-DFT reference with an order-p "
     "least-squares detrend (so a degree p+1 trend, or any offset at order -1, changes the estimate exactly as the "
     "definition says; where the reference change exceeds 1e3 budgets the implementation's change must too). "
+    "Trend amplitudes reach 1e12 times the record scale; one configuration in five uses a user-written scheduler whose "
+    "bins share (L,K) but not their starts; single-bin lengths include multiples of 128. "
     "Non-trivial: trend peak >= 10x the record peak and a checked bin with L >= order+3."
 )
 ASSUMPTIONS = [
